@@ -18,9 +18,13 @@ from .tlaparse import find_prints
 
 PATHS = ['to_string', 'mysql', 'postgresql', 'sqlite', 'mssql', 'oracle']
 STYLE = {'to_string': 'lib_sq', 'mysql': 'mysql', 'postgresql': 'std', 'sqlite': 'std', 'mssql': 'std', 'oracle': 'std'}
-POSITIONS = ['select', 'where', 'inlist', 'insert', 'update', 'neg', 'sub', 'inlist-long', 'setop-subselect', 'insert-from-setop']
+POSITIONS = ['select', 'where', 'inlist', 'insert', 'update', 'neg', 'sub', 'inlist-long', 'setop-subselect', 'insert-from-setop',
+             # typed surroundings: a cast target type, list / operator siblings of another type (a renderer that infers
+             # the literal's type from its context prints it through that type)
+             'cast-int', 'cast-float', 'cast-char', 'inlist-after-int', 'inlist-after-float', 'inlist-before-int',
+             'plus-after-int', 'compare-with-int-function', 'between-ints']
 BENIGN = 'zqz'
-TYPED = [0, 7, -3, 12345678901234567890, 1.5, -0.25, 1e-7, True, False, None,
+TYPED = [0, 7, -3, 12345678901234567890, 1.5, -0.25, 1e-7, 2.75, -0.5, 100000000000000000000.5, True, False, None,
          dt.date(2020, 2, 29), dt.datetime(2011, 1, 1, 10, 20, 30), dt.datetime(2011, 1, 1, 10, 20, 30, 123456)]
 
 
@@ -67,6 +71,26 @@ def build(pos, value):
     if pos == 'sub':
         return Select(targets=[Identifier('a')], from_table=Identifier('t'),
                       where=BinaryOperation('=', args=[Identifier('c'), BinaryOperation('-', args=[Identifier('d'), c])]))
+    if pos.startswith('cast-'):
+        from mindsdb_sql.parser.ast import TypeCast
+        return Select(targets=[Identifier('a')], from_table=Identifier('t'),
+                      where=BinaryOperation('=', args=[Identifier('c'), TypeCast(type_name={'int': 'INT', 'float': 'FLOAT', 'char': 'CHAR'}[pos[5:]], arg=c)]))
+    if pos in ('inlist-after-int', 'inlist-after-float', 'inlist-before-int'):
+        sib = Constant(0.5) if 'float' in pos else Constant(1)
+        items = [c, sib, Constant(2)] if 'before' in pos else [sib, c, Constant(2)]
+        return Select(targets=[Identifier('a')], from_table=Identifier('t'),
+                      where=BinaryOperation('not in' if 'before' in pos else 'in', args=[Identifier('c'), Tuple(items=items)]))
+    if pos == 'plus-after-int':
+        return Select(targets=[Identifier('a')], from_table=Identifier('t'),
+                      where=BinaryOperation('=', args=[Identifier('c'), BinaryOperation('+', args=[Constant(1), c])]))
+    if pos == 'compare-with-int-function':
+        from mindsdb_sql.parser.ast import Function
+        return Select(targets=[Identifier('a')], from_table=Identifier('t'),
+                      where=BinaryOperation('>', args=[Function('length', args=[Identifier('c')]), c]))
+    if pos == 'between-ints':
+        from mindsdb_sql.parser.ast import BetweenOperation
+        return Select(targets=[Identifier('a')], from_table=Identifier('t'),
+                      where=BetweenOperation(args=[Identifier('c'), Constant(1), c]))
     if pos == 'div':
         return Select(targets=[Identifier('a')], from_table=Identifier('t'),
                       where=BinaryOperation('=', args=[Identifier('c'), BinaryOperation('/', args=[Identifier('d'), c])]))
@@ -100,6 +124,8 @@ def _case(value_spec):
     kind, payload = value_spec
     value = s_of(payload) if kind == 'str' else payload
     out = []
+    import warnings
+    warnings.filterwarnings('ignore', message='.*rendering literal NULL.*')
     for path in PATHS:
         for pos in POSITIONS:
             try:
